@@ -201,8 +201,6 @@ op('tanhshrink', 1, 'return x - std::tanh(x);', FT('tanhshrink'), ['f'], npf=lam
 # ops evaluated additionally on extreme element values (type minima/maxima, infinities, signed zero, denormals): no overflow possible
 EXTREMES = {'equal', 'not_equal', 'less', 'less_equal', 'greater', 'greater_equal', 'maximum', 'minimum', 'fmax', 'fmin',
             'bitwise_and', 'bitwise_or', 'bitwise_xor', 'logical_and', 'logical_or'}
-# ops whose result element type is a known finding: values/routing and the element type are observed by separate cases
-TYPE_SPLIT = {'logical_xor'}
 DELEGATED = {'amax': 'reduction (reduce_maximum): C08', 'amin': 'reduction (reduce_minimum): C08'}
 BYNAME = {d['name']: d for d in TABLE}
 COVERED_HEADERS = {d['header'] for d in TABLE} | set(DELEGATED)
@@ -224,40 +222,7 @@ ASSUMPTIONS = ['operand element values respect each op\'s domain (no division by
                'libm results are compared on this machine/compiler only; NumPy values with a relative tolerance (NumPy uses its own SIMD kernels)',
                'positive extents; compile-time shape kinds are C09/C11']
 PARTIAL = []
-def _kv(c):
-    return dict(x.split('=', 1) for x in c.req.split(' ')[1:] if '=' in x)
-
-
-def _scalar_wider(c):
-    """binary: exactly one operand is a plain scalar and its type is the wider one (the common type) of two different types"""
-    kv = _kv(c)
-    na_, nb_ = kv.get('na') == '1', kv.get('nb') == '1'
-    if na_ == nb_ or 'tc' in kv:
-        return False
-    ts, ta = (kv['ta'], kv['tb']) if na_ else (kv['tb'], kv['ta'])
-    return ts != ta and common(ts, ta) == ts
-
-
-def _where_scalar_wider(c):
-    """where(cond, x, y): exactly one of x, y is a plain scalar and its type is wider than the other branch's element type"""
-    kv = _kv(c)
-    if 'tc' not in kv:
-        return False
-    nb_, nc_ = kv.get('nb') == '1', kv.get('nc') == '1'
-    if nb_ == nc_:
-        return False
-    ts, ta = (kv['tb'], kv['tc']) if nb_ else (kv['tc'], kv['tb'])
-    return ts != ta and common(ts, ta) == ts
-
-
-KNOWN_PREDICATES = {
-    # class: maximum / minimum / power / where with one plain-scalar operand whose type is wider than the other operand's elements
-    'scalar_operand_truncated': lambda c: c.req.startswith('uf ') and (
-        (any((' op=%s ' % n) in c.req for n in ('maximum', 'minimum', 'power')) and _scalar_wider(c)) or
-        (any((' op=%s ' % n) in c.req for n in ('where', 'where_of_comparison_view')) and _where_scalar_wider(c))),
-    # class: the element type observation of any logical_xor request
-    'logical_xor_dtype': lambda c: ' op=logical_xor ' in c.req and c.req.endswith(' obs=type'),
-}
+KNOWN_PREDICATES = {}
 TRUSTED = ['op table in lib/props/c07.py (hand-curated reference expressions)']
 
 # ---------------------------------------------------------------------------------------------- code generation
@@ -547,12 +512,6 @@ def case_for(rng, d, ts, ss, nums=(), kind='uf', params=None, tags=(), doms=None
     nt = len({tuple(s) for s in ss}) > 1
     tg = ['op=' + d['name'], 'types=' + '/'.join(ts), 'arity=%d' % len(ss), kind] + (['scalar-operand'] if nums else []) + \
          (['incompatible'] if orc == 'nothing' else []) + list(tags)
-    if d['name'] in TYPE_SPLIT and orc != 'nothing':
-        po = parse(orc)
-        vals_only = 'ok ' + ' '.join('%s=%s' % (k, po[k]) for k in ('shape', 'plan', 'vals', 'eval', 'ref'))
-        type_only = 'ok ' + ' '.join('%s=%s' % (k, po[k]) for k in ('shape', 'type', 'rt') if k in po)
-        return [Case(req, h, oracle=vals_only, mreq=mreq(kind, ss), cmp=make_cmp(rtol), nontrivial=nt, tags=tg + ['obs=values']),
-                Case(req + ' obs=type', h, oracle=type_only, mreq=mreq(kind, ss), cmp=make_cmp(rtol), nontrivial=False, tags=tg + ['obs=type'])]
     return Case(req, h, oracle=orc, mreq=mreq(kind, ss), cmp=make_cmp(rtol), nontrivial=nt, tags=tg)
 
 
